@@ -403,7 +403,23 @@ func init() {
 			return true
 		}},
 		rule{name: "server:ill-formed", kinds: []string{"Server"}, expect: always(""), apply: func(n metamodel.Node, _ M, v int) bool {
-			switch v % 3 {
+			switch v % 8 {
+			case 3:
+				// an unclosed brace in front of a variable that is written and declared correctly
+				n.Obj["url"] = "https://{region.{env}.example.com"
+				n.Obj["variables"] = M{"env": M{"default": "prod"}}
+			case 4:
+				n.Obj["url"] = "https://{{env}.example.com"
+				n.Obj["variables"] = M{"env": M{"default": "prod"}}
+			case 5:
+				n.Obj["url"] = "https://{tenant.example.com/{version}"
+				n.Obj["variables"] = M{"version": M{"default": "v1"}}
+			case 6:
+				n.Obj["url"] = "https://env}.example.com/{version}"
+				n.Obj["variables"] = M{"version": M{"default": "v1"}}
+			case 7:
+				n.Obj["url"] = "https://{env}.example.com/{version}"
+				n.Obj["variables"] = M{"env": M{"default": "prod"}}
 			case 0:
 				n.Obj["url"] = "https://{undeclared}.example.com"
 				delete(n.Obj, "variables")
@@ -955,7 +971,9 @@ func enumerate(shard, nshards int, yield func(Case)) {
 			variants = 4
 		case "secscheme:ill-formed":
 			variants = 8
-		case "server:ill-formed", "header:style-illegal":
+		case "server:ill-formed":
+			variants = 8
+		case "header:style-illegal":
 			variants = 3
 		case "components:bad-name":
 			variants = 9
